@@ -5,7 +5,7 @@
 (* trace.ndjson: line 1 = {"ev":"config","ids":[..],"ttl":ms,"slack":ms,       *)
 (* "qsize":n}; then histories, each starting with {"ev":"reset"}, of events    *)
 (* stamped by the harness (arrive, verdict, shutdown, end, crash) and by the    *)
-(* yield points of the processor (enq, pick, quota, grant, expire); times in   *)
+(* yield points of the processor (enq, pick, quota, grant, expire, drain); in   *)
 (* ms.  Implementation-level events (slot, tick, requeue, stopall, ...) are    *)
 (* not part of the property and are skipped.  Each property event e must be    *)
 (* accepted: Viol(state, e) = {} - one invariant per clause of the statement.  *)
@@ -26,7 +26,7 @@ VARIABLES l, ps, viol, gated
 
 P == INSTANCE FlowQueueP WITH TTL <- Cfg.ttl, Slack <- Cfg.slack, QueueSize <- Cfg.qsize
 
-PEvents == {"arrive", "enq", "pick", "quota", "grant", "expire", "verdict", "shutdown", "crash", "end"}
+PEvents == {"arrive", "enq", "pick", "quota", "grant", "expire", "drain", "verdict", "shutdown", "crash", "end"}
 
 tvars == <<l, ps, viol, gated>>
 Ev == TraceLog[l + 1]
@@ -41,7 +41,7 @@ TEvent == /\ l < TraceLen /\ Ev.ev \in PEvents /\ l' = l + 1
           /\ ps' = P!Step(ps, Ev)
           /\ UNCHANGED gated
 
-Pending(i) == ps.ph[i] \in {"arrived", "waiting", "decided"}
+Pending(i) == ps.ph[i] \in {"arrived", "waiting", "drained", "decided"}
 TFree == /\ l < TraceLen /\ Ev.ev = "free" /\ l' = l + 1
          /\ gated' = FALSE
          /\ ps' = IF gated
